@@ -205,6 +205,28 @@ def r3_r5_r6(ctx, retsets):
     nrec = [c for c in fn.calls(NOTIFY)]
     ctx.check(bool(nrec) and all(vf.expr(fn, c.args[1]) == ("arg", 1) for c in nrec), "C10.R6", "add_entry:notified-record", nrec[0].loc() if nrec else "%s:%d" % (fn.relfile, fn.line),
               "the record reported is the function's own argument", key="C10.R6:add_entry:record")
+    # any other place that puts an entry into a table's containers (a copy that clones entries itself) owes the table's
+    # callback the same 'added': every insertion is followed by its notification before the next insertion or the return
+    for g in [x for x in pdb.all_functions() if x.unit == U and x.name != "spki_table_add_entry" and x.calls("tommy_hashlin_insert")]:
+        ctx.touch(g)
+        late = []
+
+        def cl_ins(inst, E, st, g=g, late=late):
+            if inst.op == "call" and inst.callee == "tommy_hashlin_insert":
+                if st.get("pend") == "1":
+                    late.append(inst)
+                return ["=pend:1"]
+            if inst.op == "call" and inst.callee == NOTIFY and flow.av_single(E.val(inst.args[2])) == 1:
+                return ["=pend:0"]
+            if inst.op == "call" and inst.callee == "lrtr_malloc":
+                return [([], {inst.ref: ("nin", frozenset([0]))})]
+            return None
+        outs_i, _f = es.count_effects(g, pdb, cl_ins, retsets, cap=96)
+        owing = [o for o in outs_i if o["counts"].get("pend") == "1"]
+        ctx.check(not late and not owing, "C10.R6", "%s:insert-is-notified" % g.name, (late[0].loc() if late else (owing[0]["inst"].loc() if owing else "%s:%d" % (g.relfile, g.line))),
+                  "every entry inserted here is reported 'added' to the table's callback" if not late and not owing else
+                  "an entry is inserted into the table's containers and the function goes on (or returns) without the 'added' notification",
+                  key="C10.R6:%s:insert-notified" % g.name)
     # remove
     fn = pdb.fn("spki_table_remove_entry")
     ctx.touch(fn)
